@@ -185,6 +185,15 @@ func addEncoding(cs *[]*tcase, r *hlib.Rand, format string, v *val, enc []byte, 
 	}
 	nt := r.Range(1, 5)
 	tr := r.Bytes(nt)
+	if format == "cbor" {
+		// the as-is cbor decoder (known finding cbor-indef-string-break) may run on into the trailing bytes;
+		// semantic tags (initial bytes 0xc0..0xdf) are outside the model, so keep them out of the garbage
+		for i := range tr {
+			if tr[i] >= 0xc0 && tr[i] <= 0xdf {
+				tr[i] &= 0x3f
+			}
+		}
+	}
 	*cs = append(*cs, &tcase{format: format, in: append(append([]byte{}, enc...), tr...), kind: fmt.Sprintf("trail:%d", nt), src: src})
 }
 
